@@ -134,6 +134,80 @@ def tlpProbe (s : Tx) (now : Nat) : Tx :=
              sentQ := s.sentQ.map (fun r => if r.tsn == t then
                { r with needsRetransmit := true, transmitCount := r.transmitCount + 1, sentMs := now, inFlight := true } else r) }
 
+/-! ### PR-SCTP on the sending side: abandonment, the advanced peer ack point, FORWARD-TSN -/
+
+/-- `should_abandon` (`expired` = TSNs of the records whose lifetime has run out — the clock is an input) -/
+def shouldAbandon (expired : List UInt32) (r : SRec) : Bool :=
+  r.abandoned ||
+  (match r.maxRetransmits with
+   | some m => decide (r.transmitCount > m.toNat)
+   | none => false) ||
+  (r.hasExpiry && expired.contains r.tsn)
+
+/-- first pass of `update_advanced_peer_ack_point`: the `(stream, ssn)` keys of the records that are to
+be abandoned -/
+def abandonSet (expired : List UInt32) (q : List SRec) : List (UInt16 × UInt16) :=
+  (q.filter (fun r => !r.acked && !r.abandoned && shouldAbandon expired r)).map (fun r => (r.sid, r.ssn))
+
+/-- second pass: *every* record carrying one of those keys is abandoned — acked ones included, and for
+an unordered channel (SSN always 0) every record of the stream -/
+def abandonMark (set : List (UInt16 × UInt16)) : List SRec → Nat → List SRec × Nat
+  | [], flight => ([], flight)
+  | r :: rest, flight =>
+    if set.contains (r.sid, r.ssn) then
+      let x := abandonMark set rest (if r.inFlight then flight - r.len else flight)
+      ({ r with abandoned := true, needsRetransmit := false, inFlight := false } :: x.1, x.2)
+    else
+      let x := abandonMark set rest flight
+      (r :: x.1, x.2)
+
+/-- the `for tsn in tsns` walk (keys in the map's *numeric* order): (new advanced point, moved?) -/
+def advanceWalk : List SRec → UInt32 → Bool → UInt32 × Bool
+  | [], adv, has => (adv, has)
+  | r :: rest, adv, has =>
+    if !tsnGt r.tsn adv && r.tsn != adv + 1 then advanceWalk rest adv has
+    else if r.tsn != adv + 1 then (adv, has)
+    else if r.abandoned then advanceWalk rest r.tsn true
+    else (adv, has)
+
+/-- per stream the SSN a FORWARD-TSN reports: `if ssn_gt(r.ssn, e) || e == 0 { e = r.ssn }` over the
+removed abandoned records in key order -/
+def fwdPairs : List SRec → List (UInt16 × UInt16) → List (UInt16 × UInt16)
+  | [], acc => acc
+  | r :: rest, acc =>
+    let e := match acc.find? (fun p => p.1 == r.sid) with
+      | some p => p.2
+      | none => 0
+    let e' := if ssnGt r.ssn e || e == 0 then r.ssn else e
+    fwdPairs rest ((r.sid, e') :: acc.filter (fun p => p.1 != r.sid))
+
+structure PrOut where
+  sentQ    : List SRec
+  flight   : Nat
+  advanced : UInt32
+  pending  : Bool
+  /-- `forward_tsn_streams` (a HashMap in the code: compared as a set) -/
+  pairs    : List (UInt16 × UInt16)
+deriving DecidableEq, Repr, Inhabited
+
+/-- `update_advanced_peer_ack_point` -/
+def updateAdvanced (expired : List UInt32) (q : List SRec) (flight : Nat) (advanced lastSacked : UInt32)
+    (pending : Bool) (pairs : List (UInt16 × UInt16)) : PrOut :=
+  let m := abandonMark (abandonSet expired q) q flight
+  let adv0 := if tsnGt lastSacked advanced then lastSacked else advanced
+  let w := advanceWalk m.1 adv0 false
+  if w.2 && tsnGt w.1 adv0 then
+    let removed := m.1.filter (fun r => !tsnGt r.tsn w.1)
+    { sentQ := m.1.filter (fun r => tsnGt r.tsn w.1), flight := m.2, advanced := w.1, pending := true,
+      pairs := fwdPairs (removed.filter (·.abandoned)) [] }
+  else { sentQ := m.1, flight := m.2, advanced := advanced, pending := pending, pairs := pairs }
+
+/-- `create_forward_tsn_chunk` (the chunk, or nothing when the peer already acknowledged that far) -/
+def encForwardTsn (advanced lastSacked : UInt32) (pairs : List (UInt16 × UInt16)) : Option Bytes :=
+  if tsnGt advanced lastSacked then
+    some (encChunk (UInt8.ofNat ctForwardTsn) 0 (be32 advanced ++ (pairs.map (fun p => be16 p.1 ++ be16 p.2)).flatten))
+  else none
+
 /-! ### handle_sack (the sender's bookkeeping around `apply_sack_to_sent_queue`) -/
 
 /-- `sack_sig`: 64-bit signature of (cumulative TSN, gap blocks); a SACK with the signature of the
